@@ -997,7 +997,9 @@ class TestClientRecorder(BaseOperationRecorder):
         if isinstance(obj, bytes):
             return obj.decode("utf-8")
         if isinstance(obj, str):
-            return obj
+            # Convert subclasses of str (e.g. Char16) to str, because the
+            # YAML dumper can only represent the str type itself.
+            return str(obj)
         if isinstance(obj, bool):
             # The check for bool must be before any integer checks, because
             # bool is a subclass of int in Python.
